@@ -161,6 +161,27 @@ fn check(case: &Case, with_node: bool) -> Vec<(String, String)> {
             }
         }
     }
+    // recover_with_wal() over the same WAL files in the previous on-disk format (version 1), which the reader keeps accepting
+    {
+        let old: std::collections::BTreeMap<String, Vec<u8>> = wal.files_now().into_iter().map(|(k, b)| (k, vh::persist_kit::wal_file_to_version_1(&b))).collect();
+        if !old.is_empty() {
+            let rot1 = WalRotator::new(VWalStore::from_image(&old), 1 << 30).expect("rotator over image");
+            match std::panic::catch_unwind(std::panic::AssertUnwindSafe(|| block_on(rm.recover_with_wal(&rot1)))) {
+                Err(p) => v.push(("recover_with_wal panic wal-files-in-format-version-1".to_string(), format!("{}: {}", case.show(), vh::panic_text(&p)))),
+                Ok(Err(e)) => v.push(("recover_with_wal error wal-files-in-format-version-1".to_string(), format!("{}: {e}", case.show()))),
+                Ok(Ok(r)) => {
+                    let (p, _) = proj_of(&r.checkpoint_state, &r.deltas);
+                    if p != expect_all {
+                        let k = expect_all.keys().chain(p.keys()).find(|k| expect_all.get(*k) != p.get(*k)).unwrap();
+                        v.push((
+                            "recover_with_wal!=merge wal-files-in-format-version-1".to_string(),
+                            format!("{}: with the WAL files in on-disk format version 1: key {k}: recover_with_wal() folds to {:?}, merge of everything persisted is {:?}", case.show(), p.get(k), expect_all.get(k)),
+                        ));
+                    }
+                }
+            }
+        }
+    }
     // recover_with_wal()
     let rot = WalRotator::new(VWalStore::from_image(&wal.files_now()), 1 << 30).expect("rotator over image");
     match std::panic::catch_unwind(std::panic::AssertUnwindSafe(|| block_on(rm.recover_with_wal(&rot)))) {
